@@ -321,10 +321,23 @@ def ident_out(_in, _out, _params):
     return _out
 
 
+_SUB = {}
+
+
+def _subclass(base):
+    """a subclass of a jinns wrapper class that adds nothing (as HYPERPINN is a subclass of PINN): code that
+    dispatches on the wrapper kind must treat it as its base"""
+    if base not in _SUB:
+        _SUB[base] = type("User" + base.__name__, (base,), {})
+    return _SUB[base]
+
+
 def make_pinn(mlp, eq_type, n_out, slice_solution=None, input_transform=None,
-              output_transform=None, output_slice=None):
+              output_transform=None, output_slice=None, subclass=False):
     from jinns.utils._pinn import PINN
 
+    if subclass:
+        PINN = _subclass(PINN)
     return PINN(
         mlp=mlp,
         slice_solution=slice_solution if slice_solution is not None else jnp.s_[0:n_out],
@@ -335,9 +348,11 @@ def make_pinn(mlp, eq_type, n_out, slice_solution=None, input_transform=None,
     )
 
 
-def make_spinn(sep_module, eq_type, D, r, m):
+def make_spinn(sep_module, eq_type, D, r, m, subclass=False):
     from jinns.utils._spinn import SPINN
 
+    if subclass:
+        SPINN = _subclass(SPINN)
     return SPINN(spinn_mlp=sep_module, d=D, r=r, eq_type=eq_type, m=m)
 
 
